@@ -59,6 +59,10 @@ Theorem C11_call_sites_clean : forall cenv e,
 Proof. exact call_sites_clean. Qed.
 Print Assumptions C11_call_sites_clean.
 
+Theorem C11_sleep_site_clean : forall cenv e k, resolve_sleep cenv e <> Raises k.
+Proof. exact sleep_site_clean. Qed.
+Print Assumptions C11_sleep_site_clean.
+
 Example C11_error_kinds_nonvacuous :
   eval_const [] (EBin Div (EInt 1) (EInt 0)) = CFail KZeroDiv /\
   eval_const [] (EUn USub (EStr [97])) = CFail KType /\
